@@ -149,6 +149,7 @@ Record sseen := SSeen {
   s_out : list (nat * N * list N);   (* received: (object, digest, trail), in order *)
   s_final : list settle;             (* settlement of every WRAPPED-subscriber object at the end *)
   s_closes : nat;                    (* Close calls seen by the wrapped subscriber *)
+  s_close_rets : list (option N * option N);  (* per Close: the wrapped subscriber's answer, what Close returned *)
   s_tab : list (slabel * nat)
 }.
 
@@ -168,6 +169,8 @@ Definition sub_monitor (st : list sdec) (heap : list smsg) (ops : list sop) (o :
                       | Some m => Message.Model.st (final_state m i ops) | None => Unsettled end)
             (seq_from 0 (length heap)))
   && Nat.eqb (s_closes o) (count_closes ops)
+  && forallb (fun x => optN_eqb (snd (pclose st (fst x))) (snd x)) (s_close_rets o)
+  && Nat.eqb (length (s_close_rets o)) (count_closes ops)
   && counts_agree slabel_eqb (s_tab o) (spec_sub_obs st heap ops).
 
 (** ** handler middleware *)
